@@ -56,6 +56,7 @@ def gen_case(rng, index, tier):
         allowed=['-f', '-i', '-v', 'none', '--trash-dir', '--home-fallback'])
     if optclass == '-i':
         stdin = rng.choice(['y\n', 'y\n', 'Y\n', 'n\n', ''])
+    c01.add_stale(L, rng, [arg], index, p=0.25)
     case = L.desc()
     case['env'] = dict(case['env'], **env_extra)
     case['args'] = [arg]
@@ -76,6 +77,16 @@ def run_case(case):
         link_abs = w.abs(a['rel'])
         assert os.path.islink(link_abs)
         target_str = os.readlink(link_abs)
+        spelled = world.subst(a['spelling'], w.R)
+        kernel_resolves = os.path.lexists(
+            spelled if spelled.startswith('/') else os.path.join(cwd, spelled))
+        tdo0 = None
+        if '--trash-dir' in case['opts']:
+            tdo0 = world.subst(case['opts'][case['opts'].index('--trash-dir') + 1], w.R)
+        exp0, _ = case_expected(w, link_abs, case, tdo0, c01.fallback_on(case), None)
+        prompted = '-i' in case['opts'] and os.access(
+            spelled if spelled.startswith('/') else os.path.join(cwd, spelled), os.F_OK)
+        declined = prompted and not case.get('stdin', '').lower().startswith('y')
         s0 = w.snapshot()
         argv = [world.subst(o, w.R) for o in case['opts']] + ['--'] + \
             [world.subst(a['spelling'], w.R)]
@@ -142,6 +153,13 @@ def run_case(case):
                          expected=exp, file_volume=fvol)
         elif st == 'UNTOUCHED':
             obs['links_untouched'] = 1
+            # a link the kernel resolves, a usable trash dir, no "no" from the
+            # user: the link itself must have been trashed
+            if kernel_resolves and exp0 and not declined:
+                viol('link-not-trashed-though-trashable/%s/%s' % (a['kind'], a['class']),
+                     expected=exp0)
+            else:
+                obs['refusal_legitimate'] = 1
         elif st == 'ALTERED' and o.get('only_symlink_mtime') and fb and \
                 any(e['op'] == 'symlink' for e in r.mut()):
             # the C01 known finding; not re-reported here
